@@ -136,7 +136,7 @@ func vpH_C09_frame() {
 			vpAssert(false, "frame: unsynchronised write to shared segment state by "+vpReadOpNames[k])
 		}
 	} else {
-		k2 := vpChoice("op2", len(vpReadOpNames))
+		k2 := k // the same operation in two goroutines
 		solo1, solo2 := vpReadOp(k, seg), vpReadOp(k2, seg)
 		var wg sync.WaitGroup
 		var r1, r2 []byte
